@@ -219,6 +219,39 @@ NOT_APPLICABLE = {
 }
 
 
+
+# clauses added after the first version of each check (red-team misses, defects found); appended to the texts above
+ADDENDA = {
+    "C02": " Also: a present optional field is printed whatever it contains (no Some-discarding adaptor, emission controlled only by the Option being Some); a writer that separates elements with commas has a parser accepting COMMA.",
+    "C03": " Also: whole real parts written as bare digit strings (trim_floats below 10^break) fit the lexer's integer token width.",
+    "C04": " Also: the literal rule shared with C02; positions printed with format_complex need a parser that accepts a sign and a sum (CALL immediates: sign repaired, two-part values a known finding); an expression printed directly after a qubit list is grouped by the writer (DELAY, repaired).",
+    "C05": " Also: a literal is negated only under a test of the sign token being Operator::Minus; the float Eq/Hash helpers used for interning Expression numbers are exact (no ordering comparison, arithmetic or tolerance).",
+    "C06": " Also: taking a name apart (split/strip/truncate family) before storing it counts as normalisation (one named exception: Pauli words decoded into PauliGate values).",
+    "C07": " Also: no writer re-processes the serialized text of a nested value (split/lines/replace/trim): repaired for DEFCIRCUIT bodies.",
+    "C08": " Also: in every function that builds, merges, filters or rebuilds a Program store, no order-scrambling call (swap_remove, sort, reverse, ...) is applied to an insertion-ordered container and no insertion-ordered container is filled from an iteration over a hash-ordered one.",
+    "C09": " Also: CalibrationSet's backing vector is added to only by `replace`; every section of both listings is appended unconditionally.",
+    "C10": " Also: the rebuild covers each qubit-bearing sub-store (gate and measure calibrations separately), also when the cache is filled through a local collection; replacing a qubit-bearing definition triggers a rebuild (repaired).",
+    "C11": " Also: every field merge of the nested merge helpers happens on every path (no fast path decided from part of the other operand).",
+    "C12": " Guard helpers are inlined and let-else / if-chain bindings are modelled, so the affine rule is decided too; no undecided instance is left.",
+    "C13": " Also: substitute_variables returns a node of the same kind for Infix/Prefix/FunctionCall on every path; every value evaluate computes from evaluated children goes through calculate_infix / calculate_function / negation.",
+    "C14": " Also (shape rules, not part of the proof of the tables): every permutation step in two_swap_helper / permutation_arbitrary multiplies the new factor on the left of the accumulator in every branch; the gate's parameter reaches its matrix function unchanged.",
+    "C17": " Also: the parameter substitution in the closure handed to apply_to_expressions is unconditional; both public entry points return what expand_calibrations_inner built on every path.",
+    "C18": " Also: at every call in the expansion cycle and its public wrappers the callee's error is propagated (`?`, returned as is, or an Err arm that returns).",
+    "C23": " Also: every (region, access kind) of every instruction reaches the per-region queue (element-preserving adaptors only, unconditional record call).",
+    "C24": " Also: the per-frame queues are keyed by a type holding the full FrameIdentifier (no order-forgetting set of qubits).",
+    "C25": " Also: TimeSpan::union decided path by path (start = min of starts, end = max of ends, justified by the path's comparisons); the calibrated index map and span merge of BasicBlock::as_schedule.",
+    "C26": " Also: each side of FrameSet::filter is evaluated whenever its condition is present (no Some-discarding adaptor, unconditional evaluation).",
+    "C27": " Also: the CALL table: for (return slot | loop) x (MemoryReference | Identifier) x (reads | writes) the insertion happens under exactly the expected controlling conditions (writes of loop arguments only additionally under `mutable`).",
+    "C30": " Also: every declaration lookup in the type checker (18 sites) reports UndefinedMemoryReference when the region is not declared.",
+    "C31": " Also: the argument-count comparison uses the plain argument count (no lossy arithmetic) against parameters plus the return slot; a mutable parameter is printed with `mut` on every path, whatever its type.",
+    "C33": " Also: MOVE, SUB and JUMP-WHEN address the same memory cell (the caller's reference) and the declared length covers its index (repaired); the early returns are decided on the MIR paths.",
+    "C35": " Also: simplify never reads the unexpanded body; CALL names are collected in the loop over the expanded body.",
+    "C20": " Also: the referenced set is filled under a transitive reachability query; errors are raised only for selected invocations.",
+    "C21": " Also: every effect of an iteration (extend / push / entry push) is unconditional within its arm; both Program-level entry points return the program they built.",
+    "C29": " A traversal that prunes paths is reported as undecided, never as a violation.",
+}
+
+
 def main():
     props = [json.loads(l) for l in open(os.path.join(VERIF, "properties.jsonl"))]
     checks = []
@@ -235,7 +268,7 @@ def main():
                     "evidence_file": "/verif/evidence/%s.json" % pid,
                     "replay_cmd_template": "./check %s --replay {path}" % pid,
                     "engine": "qv",
-                    "level_claimed": {"category": c["level"], "text": c["text"], "design_ref": c["design_ref"]},
+                    "level_claimed": {"category": c["level"], "text": c["text"] + ADDENDA.get(pid, ""), "design_ref": c["design_ref"]},
                     "level_note": c.get("note", BASE_NOTE),
                     "technique": "static analysis: " + c["technique"],
                 }
